@@ -9,10 +9,11 @@ DEST="/verif/seeded/${DESTNAME:-$PROP-$X}"
 [ -f "$M/patch.diff" ] || { echo "$PROP-$X: no patch"; exit 1; }
 WT="/tmp/ev-${DESTNAME:-$PROP-$X}-$$"
 git -C /repo worktree add --detach "$WT" HEAD -q || exit 2
-clean_demo=$(cd "$WT" && PYTHONPATH="$WT/src" timeout 300 /venv/bin/python "$M/demo.py" >/tmp/ev-${DESTNAME:-$PROP-$X}.clean.log 2>&1; echo $?)
+mkdir -p "$WT/MUTANT/$X"; cp "$M/demo.py" "$WT/MUTANT/$X/demo.py"   # some demos locate src relative to their own path
+clean_demo=$(cd "$WT" && PYTHONPATH="$WT/src" timeout 300 /venv/bin/python "$WT/MUTANT/$X/demo.py" >/tmp/ev-${DESTNAME:-$PROP-$X}.clean.log 2>&1; echo $?)
 if ! git -C "$WT" apply "$M/patch.diff"; then echo "$PROP-$X PATCH-FAILS"; git -C /repo worktree remove --force "$WT"; exit 1; fi
 suite=$(cd "$WT" && PYTHONPATH="$WT/src" timeout 600 /venv/bin/python -m pytest -q -p no:cacheprovider 2>&1 | tail -1)
-mut_demo=$(cd "$WT" && PYTHONPATH="$WT/src" timeout 300 /venv/bin/python "$M/demo.py" >/tmp/ev-${DESTNAME:-$PROP-$X}.mut.log 2>&1; echo $?)
+mut_demo=$(cd "$WT" && PYTHONPATH="$WT/src" timeout 300 /venv/bin/python "$WT/MUTANT/$X/demo.py" >/tmp/ev-${DESTNAME:-$PROP-$X}.mut.log 2>&1; echo $?)
 mkdir -p "$DEST"; cp "$M/patch.diff" "$M/demo.py" "$DEST/"; [ -f "$M/notes.md" ] && cp "$M/notes.md" "$DEST/"
 OUT="/tmp/evout-${DESTNAME:-$PROP-$X}"; rm -rf "$OUT"; mkdir -p "$OUT"
 caught=""; res=""
